@@ -139,9 +139,16 @@ def _(c):
         "c10_no_failure": "not truthy(ghost.target_raised)",
         "logger_wf": wf_at("self.function_logger"),
         "c03_nfs_kept": "nfs == ghost.nfs1 and B_ == ghost.B1",
+        "c05_fresh_samples": "forall(i_sample, lambda k: yval_vec[k] == retval(ghost.fc_tail0 + k + 1))",
+        "c05_samples_at_point": "forall(lambda n: implies(ghost.fc_tail0 < n and n <= ghost.fc_tail0 + i_sample, pteq(argpt(n), invt(pt(ghost.u_tail)))))",
+        "c05_reported_sds": "implies(truthy(self.function_logger.he_noise_flag), forall(i_sample, lambda k: ysd_vec[k] == retsd(ghost.fc_tail0 + k + 1)))",
+        "c05_shape": "rows(yval_vec) == nfs and rows(ysd_vec) == nfs and i_sample <= nfs",
+        "c05_point_kept": "pteq(pt(self.u), pt(ghost.u_tail))",
         "c02_sampling_point_feasible": FEAS("self.u"),
         "c02_log_feasible": LOGFEAS,
-    }, variant=["nfs - i_sample"], ghost={"fc_tail0": "fc", "nfs1": "nfs", "B1": "B_"})
+    }, variant=["nfs - i_sample"], ghost={"fc_tail0": "fc", "nfs1": "nfs", "B1": "B_", "u_tail": "self.u"})
+    c.arr("yval_vec", 1, [None])
+    c.arr("ysd_vec", 1, [None])
     c.strings(MSG_FUN=MSG_FUN, MSG_ITER=MSG_ITER, MSG_MESH=MSG_MESH, MSG_TOLFUN=MSG_TOLFUN)
     # ---- C03 top-level clauses ---------------------------------------------------------------------------------
     c.ens("terminates", "True", top=True, props=["C03"])   # carried by loop#0/loop#1 variant obligations
@@ -161,6 +168,21 @@ def _(c):
     c.req("c02_log_feasible", LOGFEAS, props=["C02"])
     c.req("fresh_history", "rows(" + HU + ") == 0 and " + H_ALIGNED, props=["C19"])
     c.ens("returned_point_feasible", "feasx(pt(self.x))", top=True, props=["C02"])
+    # ---- C05 -----------------------------------------------------------------------------------------------------
+    NOISY_TAIL = "lvl > 0 and poll_iteration > 0 and nfs > 0"
+    c.ens("final_samples_are_the_last_calls", "implies(" + NOISY_TAIL + ", ghost.fc_tail0 + nfs == fc and ghost.n_calls == fc)", top=True, props=["C05"])
+    c.ens("final_samples_at_returned_x", "implies(" + NOISY_TAIL + ", forall(lambda n: implies(fc - nfs < n and n <= fc, pteq(argpt(n), invt(pt(self.u))))))", top=True, props=["C05"])
+    c.ens("returned_x_is_image_of_final_u", "pteq(pt(self.x), invt(pt(self.u)))", top=True, props=["C05", "C19", "C04"])
+    c.ens("yval_vec_is_the_fresh_observations", "implies(" + NOISY_TAIL + ", forall(nfs, lambda k: num(self.optim_state['yval_vec'][k]) == retval(ghost.fc_tail0 + k + 1)))",
+          top=True, props=["C05"])
+    c.ens("single_sample_supplemented_by_earlier_observation", "implies(" + NOISY_TAIL + " and nfs == 1, rows(self.optim_state['yval_vec']) == 2 and "
+          "num(self.optim_state['yval_vec'][1]) == " + HY + "[min_q_beta_idx])", top=True, props=["C05"])
+    c.ens("fval_is_mean_fsd_is_standard_error", "implies(" + NOISY_TAIL + ", self.fval == mean_of(self.optim_state['yval_vec']) and "
+          "self.fsd == std_of(self.optim_state['yval_vec']) / ghost_sqrt(self.optim_state['yval_vec']))", top=True, props=["C05"])
+    c.ens("ysd_vec_is_reported_sds", "implies(" + NOISY_TAIL + " and truthy(self.function_logger.he_noise_flag), "
+          "forall(nfs, lambda k: num(self.optim_state['ysd_vec'][k]) == retsd(ghost.fc_tail0 + k + 1)))", top=True, props=["C05"])
+    c.ens("returned_x_evaluated_earlier", "implies(lvl > 0 and poll_iteration > 0, 0 <= min_q_beta_idx and min_q_beta_idx < rows(" + HX + ") and "
+          "pteq(pt(self.x), row(" + HX + ", min_q_beta_idx)))", top=True, props=["C05"])
     # ---- C19 -----------------------------------------------------------------------------------------------------
     c.req("fresh_history_c19", "rows(" + HX + ") == 0 and rows(" + HFC + ") == 0", props=["C19"])
     c.arr("ghost.hidx", 1, [None])
@@ -238,6 +260,10 @@ def _(c):
     c.req("log_maps_back", LOGMAP, props=["C04", "C19"])
     inv_c04(c, require=False, u="self.u", with_fsd=False)
     inv_c02(c, u_best=False)
+    # C05: a target whose two evaluations at the starting point differ by more than tol_noise is treated as stochastic, otherwise not
+    c.ens("noise_detected_iff_two_values_differ", "implies(old(lvl) < 1, iff(lvl >= 1, abs(retval(old(ghost.n_calls) + 1) - retval(old(ghost.n_calls) + 2)) > self.options['tol_noise']) "
+          "and pteq(argpt(old(ghost.n_calls) + 1), argpt(old(ghost.n_calls) + 2)))", top=True, props=["C05"])
+    c.ens("declared_noise_level_kept", "implies(old(lvl) >= 1, lvl == old(lvl))", top=True, props=["C05"])
     c.ens("sloppy_kept", "truthy(self.options['sloppy_improvement']) == truthy(old(self.options['sloppy_improvement']))")
     c10(c)
     c.ens("count_grows", "fc >= old(fc)", props=["C03"])
